@@ -35,7 +35,7 @@ def hx(b):
 
 def op_json(o):
     k = o[0]
-    if k in ("getbal", "getnonce", "getcode"):
+    if k in ("getbal", "getnonce", "getcode", "suicide"):
         return {"o": k, "a": o[1]}
     if k in ("get", "query", "getcommitted"):
         return {"o": k, "a": o[1], "k": hx(o[2])}
@@ -56,9 +56,16 @@ def op_json(o):
     return {"o": k}
 
 
+# True while the histories are to be run on the full ledger.Ledger (state + chain ledger + blockfile)
+DRIVER_FULL = False
+
+
 def history_json(ops, keys=KEYS, codes=CODES, addrs=ADDRS):
-    return {"addrs": addrs, "keys": [k.hex() for k in keys], "codes": [c.hex() for c in codes],
-            "ops": [op_json(o) for o in ops]}
+    j = {"addrs": addrs, "keys": [k.hex() for k in keys], "codes": [c.hex() for c in codes],
+         "ops": [op_json(o) for o in ops]}
+    if DRIVER_FULL:
+        j["full"] = True
+    return j
 
 
 # ---------------------------------------------------------------- Gallina rendering
@@ -93,6 +100,12 @@ def gop(o, keys=KEYS, naddr=len(ADDRS)):
         return "SetBal %d %s" % (o[1], gz(o[2]))
     if k == "addbal":
         return "AddBal %d %s" % (o[1], gz(o[2]))
+    if k == "suicide":
+        # Suiside(addr) (EVM SELFDESTRUCT) as coded: the suicided flag is never read by Commit (Suicided() is the
+        # constant false), so its whole effect is SetBalance(0) plus a second, redundant undo entry; the model
+        # and the specification therefore see the op SetBal a 0 (the driver issues SetBalance(0) itself when the
+        # ledger does not know the account: Suiside dereferences a nil account there, no SELFDESTRUCT can do that)
+        return "SetBal %d %s" % (o[1], gz(0))
     if k == "setnonce":
         return "SetNonce %d %d" % (o[1], o[2])
     if k == "setcode":
@@ -290,7 +303,7 @@ def run_groups(ctx, exe, name, groups_ops, mode, cfgs="cfg_subsets cfg_current",
             ctx.broken("driver:ledger", "malformed op was not rejected: " + json.dumps(bad_raw[:1]))
             return None, None, None
         ops, obs = clean_ops(h, o["obs"])
-        impl.append(dict(ops=ops, obs=obs, strs=o["strs"], kec=o["kec"]))
+        impl.append(dict(ops=ops, obs=obs, strs=o["strs"], kec=o["kec"], chain0=o.get("chain0")))
     ctx.traces_validated += len(flat)
     vs = judge(ctx, name, groups, impl, mode, cfgs, keys, addrs=addrs)
     return vs, impl, groups
@@ -323,6 +336,8 @@ def gen_tx(r, next_snap, allow_add=True, allow_code=True, n_ops=None, wild=False
             ops.append(("setnonce", a, r.choice(NONCES)))
         elif c < 0.58 and allow_code:
             ops.append(("setcode", a, r.choice(CODES) if not wild else r.choice(CODES + [None])))
+        elif c < 0.595:
+            ops.append(("suicide", a))
         elif c < 0.70:
             ops.append(("get", a, r.choice(KEYS)))
         elif c < 0.80:
@@ -472,7 +487,7 @@ def op_from_json(j):
 
     def b(x):
         return None if x is None else bytes.fromhex(x)
-    if k in ("getbal", "getnonce", "getcode"):
+    if k in ("getbal", "getnonce", "getcode", "suicide"):
         return (k, j["a"])
     if k in ("get", "query", "getcommitted"):
         return (k, j["a"], b(j["k"]))
@@ -638,12 +653,164 @@ def decide(ctx, exe, name, groups_ops, mode, known, keys=KEYS, nontrivial=None, 
     return stats
 
 
+# ---------------------------------------------------------------- the full ledger (state + chain)
+
+def gen_full_history(r, quick=True):
+    """block history on the full ledger: well-formed blocks (commit = head + 1 on both halves), rollbacks to
+    targets inside the journal window, above the head, BELOW the window (refused by the state ledger) and 0,
+    reopen (ledger.New re-aligns both halves), dumps.  (mn, mx) follow the specification's window."""
+    ops = []
+    mn, mx = 0, 0
+    n = r.choice([3, 5, 12, 13, 14, 15]) if quick else r.randrange(2, 16)
+    steps = 0
+    while steps < n + 6 and mx < 16:
+        steps += 1
+        a = r.randrange(3)
+        ops += [r.choice([("setbal", a, mx + 1), ("setnonce", a, mx + 1), ("setcode", a, r.choice([b"c1", b"c2"]))]),
+                ("set", r.randrange(3), r.choice(KEYS), r.choice([b"v%d" % mx, None, b"w"]))]
+        h = mx + 1
+        ops += [("flush",), ("commit", h)]
+        mn1 = h if mn == 0 else mn
+        mn = h - 10 if (h > 10 and mn1 < h - 10) else mn1
+        mx = h
+        c = r.random()
+        if c < (0.5 if mx > 11 else 0.2):
+            kind = r.random()
+            if kind < 0.45 and mn > 1:
+                t = r.randrange(0, mn)                      # below the journal window: refused
+            elif kind < 0.6:
+                t = mx + r.randrange(1, 3)                  # above the head: refused
+            elif kind < 0.9:
+                t = r.randrange(mn, mx + 1)
+            else:
+                t = 0
+            if r.random() < 0.3:
+                ops.append(("set", r.randrange(3), r.choice(KEYS), b"dirty"))
+            ops.append(("rollback", t))
+            refused = mx < t or (t < mn and not (mn == 1 and t == 0))
+            ops += [("version",), ("dump",)]
+            if not refused and t != mx:
+                mx = t
+                if t == 0:
+                    mn = 0
+            if r.random() < 0.4:
+                ops += [("reopen",), ("dump",)]
+        elif c < 0.6:
+            ops.append(("reopen",))
+    ops += [("version",), ("dump",)]
+    return ops
+
+
+def full_fixed_histories():
+    """always run: 13 blocks (journal floor 3), a rollback below the floor, one above the head, both refused;
+    then one inside the window, a reopen and a further block"""
+    ops = []
+    for h in range(1, 14):
+        ops += [("setbal", h % 3, h), ("set", h % 3, KEYS[h % len(KEYS)], b"v%d" % h), ("flush",), ("commit", h)]
+    a = ops + [("rollback", 1), ("version",), ("dump",), ("rollback", 15), ("version",), ("rollback", 7), ("version",), ("dump",),
+               ("reopen",), ("dump",), ("setbal", 0, 77), ("flush",), ("commit", 8), ("dump",)]
+    b = ops + [("set", 1, b"a", b"dirty"), ("rollback", 2), ("dump",), ("reopen",), ("version",), ("dump",),
+               ("rollback", 3), ("dump",), ("rollback", 0), ("version",)]
+    return [a, b]
+
+
+def chain_frame_source(impl_list):
+    src = ["From BX Require Import Base.Prelude Base.Sha256 Model.JsonAcct Model.Merkle Model.StateLedger Model.LedgerSpec.",
+           "Local Open Scope N_scope.",
+           "Definition U_accts : list N := %s." % glist(range(len(ADDRS))),
+           "Definition U_keys : list bytes := %s." % glist(KEYS, gbytes)]
+    cs = []
+    for im in impl_list:
+        ops, obs = im["ops"], im["obs"]
+        cs.append("(%s, %s, %s, %s)" % (
+            glist(ops, lambda o: "(" + gop(o) + ")"),
+            glist(zip(ops, obs), lambda p: "(" + gout(p[0], p[1]) + ")"),
+            glist(obs, lambda b: glist(b.get("chain") or [])),
+            glist(im["chain0"] or [])))
+    src.append("Definition fcases : list (list op * list out * list (list N) * list N) :=\n %s." % glist(cs, lambda x: "\n " + x))
+    src.append("Definition M := Eval vm_compute in map (fun c : list op * list out * list (list N) * list N =>")
+    src.append("  match full_frame_g (fst (fst (fst c))) (snd (fst (fst c))) (snd (fst c)) (snd c) 0 with Some i => (1, i) | None => (0, 0) end) fcases.")
+    src.append("Print M.")
+    return "\n".join(src) + "\n"
+
+
+def chain_frame_verdicts(ctx, name, impl_list):
+    rc, out = vlib.coq_eval("%s_%d" % (name, os.getpid()), chain_frame_source(impl_list), timeout=900)
+    v = vlib.parse_verdicts(out)
+    if rc != 0 or v is None or len(v) != len(impl_list):
+        ctx.broken("predicate:full_frame_g(%s)" % name, out[-1500:])
+        return None
+    return v
+
+
+def decide_full(ctx, exe, name, histories, mode, known, nontrivial=None):
+    """histories run on the full ledger.Ledger: the state half is judged as every other history (specification on
+    the implementation trace, correspondence with the model); the chain half by [full_frame_g]"""
+    global DRIVER_FULL
+    DRIVER_FULL = True
+    try:
+        stats = decide(ctx, exe, name, [[h] for h in histories], mode, known, nontrivial=nontrivial)
+        vs, impl, groups = run_groups(ctx, exe, name + "_c", [[h] for h in histories], mode)
+        if impl is None:
+            return stats
+        v = chain_frame_verdicts(ctx, name, impl)
+        if v is None:
+            return stats
+        nviol = 0
+        for im, (code, step) in zip(impl, v):
+            if code == 0:
+                continue
+            nviol += 1
+            if nviol > 3:
+                continue
+            ops = im["ops"]
+            # replay: the history up to the offending step (re-run once to confirm it still fails)
+            def fails(cand):
+                v2, i2, g2 = run_groups(vlib.Ctx(ctx.pid, ctx.tier, ctx.seed), exe, name + "_sh", [[cand]], mode)
+                if not i2:
+                    return False
+                w = chain_frame_verdicts(vlib.Ctx(ctx.pid, ctx.tier, ctx.seed), name + "_sh", i2)
+                return bool(w) and w[0][0] == 1
+            cand = ops[:step + 1]
+            small = cand if nviol <= 1 and fails(cand) else ops
+            o = ops[step]
+            ctx.violation("step %d (%s -> %s) of a history on the full ledger moved the chain half although it %s: chain before %s, after %s" % (
+                              step, o, im["obs"][step].get("r"),
+                              "was refused" if o[0] in ("rollback", "commit") and im["obs"][step].get("r") != "ok" else "must leave it as it is / at that height",
+                              (im["obs"][step - 1].get("chain") if step > 0 else im["chain0"]), im["obs"][step].get("chain")),
+                          dict(property=ctx.pid, driver="ledger", full=True, mode=mode, keys=[k.hex() for k in KEYS], addrs=ADDRS,
+                               group=group_to_json([small]), original=group_to_json([ops]),
+                               verdict=dict(chain_frame=[code, step]), impl=[im["obs"]],
+                               what="chain half of ledger.Ledger moved by a refused rollback / not aligned with the state half"))
+        stats["chain_violation"] = nviol
+        return stats
+    finally:
+        DRIVER_FULL = False
+
+
 def replay_file(ctx, path):
     obj = json.load(open(path))
     exe, err = vlib.build_harness("ledger")
     if exe is None:
         print(err)
         return 1
+    if obj.get("full"):
+        global DRIVER_FULL
+        DRIVER_FULL = True
+        try:
+            group = group_from_json(obj["group"])
+            vs, impl, groups = run_groups(ctx, exe, "replay", [group], obj.get("mode", 7))
+            if not vs:
+                print("judge failed:", ctx.broken_list)
+                return 1
+            w = chain_frame_verdicts(ctx, "replay", impl)
+            pb, corr, cfgi = vs[0]
+            kind, fid, text = classify(pb, [impl[i]["ops"] for i in groups[0]])
+            print(json.dumps(dict(property_predicate=list(pb), correspondence=list(corr), kind=kind, finding=fid, what=text,
+                                  chain_frame=w, impl=[impl[i]["obs"] for i in groups[0]])))
+            return 0 if kind == "ok" and corr[0] == 0 and w and all(c == 0 for c, _ in w) else 1
+        finally:
+            DRIVER_FULL = False
     keys = [bytes.fromhex(k) for k in obj["keys"]] if "keys" in obj else KEYS
     group = group_from_json(obj["group"])
     vs, impl, groups = run_groups(ctx, exe, "replay", [group], obj.get("mode", 7), keys=keys, addrs=obj.get("addrs"))
@@ -750,6 +917,42 @@ def scen_code_rollback_continuation(r):
            ("getcode", a), ("dump",), ("set", a, b"b", b"z"), ("flush",), ("commit", 3), ("getcode", a), ("dbdump",),
            ("rollback", 2), ("getcode", a), ("dump",)]
     return [ops]
+
+
+def scen_code_replaced_pending(r):
+    """a contract's committed code is REPLACED in block N; block N is flushed and, while Commit(N) is pending
+    (block N+1 already executes), the account is loaded again: it must carry the flushed code; writing the old
+    code back in block N+1 is a real change"""
+    a = r.randrange(3)
+    c1, c2 = r.sample([b"c1", b"c2", b"\x60\x00"], 2)
+    ops = [("setcode", a, c1), ("setbal", a, 1), ("flush",), ("commit", 1)]
+    if r.random() < 0.4:
+        ops.append(("reopen",))
+    ops += [("setcode", a, c2)] + ([("set", a, r.choice(KEYS), b"v")] if r.random() < 0.5 else []) + [("flush",)]
+    ops += [r.choice([("getcode", a), ("getbal", a), ("getnonce", a)]), ("getcode", a)]
+    tail = r.choice(["read", "writeback", "revert"])
+    if tail == "writeback":
+        ops += [("setcode", a, c1)]
+    elif tail == "revert":
+        ops += _tx([("setcode", a, c1)], revert=True)
+    ops += [("commit", 2), ("getcode", a), ("flush",), ("commit", 3), ("getcode", a), ("dbdump",), ("reopen",), ("getcode", a), ("dump",)]
+    return [ops]
+
+
+def scen_selfdestruct_then_touch(r):
+    """a contract self-destructs (EVM SELFDESTRUCT: Suiside) in block N; a later block touches that address on
+    a ledger that kept running and on one that was restarted / lost its cache entry in between: what the root
+    of block N committed to is what later blocks, warm or cold, must start from"""
+    a, b = r.sample(range(3), 2)
+    k = r.choice(KEYS)
+    base = [("setbal", a, 7), ("setnonce", a, 3), ("setcode", a, r.choice([b"c1", b"c2"])), ("set", a, k, b"v"),
+            ("setbal", b, 1), ("flush",), ("commit", 1)]
+    base += _tx([("getbal", a), ("suicide", a), ("addbal", b, 7)]) + [("flush",), ("commit", 2)]
+    touch = r.choice([[("addbal", a, 5)], [("setnonce", a, 9)], [("setcode", a, b"\x60\x00")], [("set", a, k, b"w")]])
+    tail = [("getbal", a), ("getnonce", a), ("getcode", a), ("get", a, k)] + touch + \
+           [("flush",), ("commit", 3), ("dump",), ("dbdump",), ("reopen",), ("addbal", a, 1), ("flush",), ("commit", 4), ("dump",)]
+    cold = r.choice([[("reopen",)], [("evict", a, 0, b"")], [("reopen",)]])
+    return [base + tail, base + cold + tail]
 
 
 def scen_window_floor(r):
@@ -909,7 +1112,8 @@ def scen_address_ff(r):
 EXACT_SCENARIOS = [scen_empty_overwrite]
 
 SCENARIOS = [scen_delete_rewrite_revert, scen_blind_overwrite_cold, scen_read_between_flush_and_commit,
-             scen_code_rollback_continuation, scen_window_floor, scen_reverted_setcode_root,
+             scen_code_rollback_continuation, scen_code_replaced_pending, scen_selfdestruct_then_touch, scen_window_floor,
+             scen_reverted_setcode_root,
              scen_stale_revision, scen_storage_only_pending, scen_floor_moves, scen_created_account_storage,
              scen_failed_write_after_delete, scen_credit_existing, scen_prefix_ff]
 
